@@ -5,6 +5,8 @@ import Proofs.C10Sub
 import Proofs.C10Align
 import Proofs.C10Gen
 import Proofs.C10Cache
+import Proofs.C10Split
+import Proofs.C10Fields
 /-!
 # C10 — string, regex and int() builtins obey their defining equations
 
@@ -245,6 +247,95 @@ theorem repl_tokens (m : Bytes) (toks : List RTok) (h : ∀ t ∈ toks, t.ok) :
     expand m (toks.flatMap RTok.render) = toks.flatMap (RTok.meaning m) :=
   expand_tokens m toks h
 
+/-! ## deepening: total replacement rule, split companions, `" "` separator, case mapping -/
+
+/-- the exact rule of the replacement callback for EVERY replacement text: `tokenize` cuts any byte string into the tokens
+`&`, `\&`, `\\`, backslash+other byte, a final lone backslash, other byte — losslessly and canonically — and `expand` is the
+concatenation of the tokens' meanings (match, `&`, one backslash, and the token itself for the last three) -/
+theorem repl_total (m r : Bytes) :
+    (tokenize r).flatMap RTok.render = r ∧ expand m r = (tokenize r).flatMap (RTok.meaning m) ∧
+    (∀ t ∈ (tokenize r).dropLast, t.ok) ∧ (∀ t ∈ tokenize r, t = .bsEnd ∨ t.ok) :=
+  ⟨tokenize_render r, expand_tokenize m r, tokenize_init_ok r, tokenize_tokens r⟩
+
+/-- a backslash before a byte other than `&` and backslash is kept, together with that byte; a final backslash is kept -/
+theorem repl_backslash_other (m : Bytes) (c : UInt8) (r : Bytes) (h1 : c ≠ 38) (h2 : c ≠ 92) :
+    expand m (92 :: c :: r) = 92 :: c :: expand m r ∧ expand m [92] = [92] :=
+  ⟨expand_bsOther m c r h1 h2, by simp [expand]⟩
+
+/-- companion of `split_join`: no piece of a literal-separator split contains the separator, so the pieces are exactly
+the separator-free segments between successive first occurrences -/
+theorem split_no_sep (s sep : Bytes) (hs : sep ≠ []) : ∀ p ∈ awkSplitLit s sep, indexOf p sep = none := by
+  intro p hp
+  simp only [awkSplitLit] at hp
+  split at hp
+  · simp at hp
+  · simp only [stringsSplit, hs, if_false] at hp
+    exact splitF_no_sep sep hs s.length s (Nat.le_refl _) p hp
+
+/-- regex separator, for every well-formed match list: the pieces interleaved with the matched separators give back `s`;
+a match that ends at offset 0 (an empty match at the very start) cuts nothing; there is one piece more than cutting
+matches, except that no final piece follows a match that starts at the end of `s` (what `regexp.Split` does); leading,
+trailing and adjacent non-empty matches give empty pieces -/
+theorem split_regex_spec (s : Bytes) (ms : List (Nat × Nat)) (hs : s ≠ []) (h : MatchesWF s 0 ms) :
+    weave (awkSplitRegex s ms) (cutTexts s ms) = s ∧
+    (awkSplitRegex s ms).length = (cutTexts s ms).length + (if lastStart 0 ms = s.length then 0 else 1) := by
+  simp only [awkSplitRegex, hs, if_false]
+  exact ⟨by simpa using regexSplitLoop_weave ms s 0 0 h (Nat.le_refl _), regexSplitLoop_length ms s 0 0⟩
+
+/-- `split(s, a, " ")` = `strings.Fields`: the fields are the maximal runs of runes that are not Unicode spaces — each is
+non-empty and space-free, and together they are `s` with the space runes removed -/
+theorem split_space_fields (s : Bytes) :
+    stringsFields s = (groupsLoop isSpaceRune (runes s) []).map List.flatten ∧
+    (∀ g ∈ groupsLoop isSpaceRune (runes s) [], g ≠ [] ∧ ∀ r ∈ g, isSpaceRune r = false) ∧
+    (groupsLoop isSpaceRune (runes s) []).flatten = (runes s).filter (fun r => !isSpaceRune r) :=
+  ⟨rfl, groupsLoop_groups isSpaceRune (runes s) [] (by simp), by simpa using groupsLoop_flatten isSpaceRune (runes s) []⟩
+
+/-- … and the layout rules that determine them completely: leading separators are ignored; a non-empty separator-free word
+followed by at least one separator is the next field; a final word needs no separator after it (trailing ones are ignored) -/
+theorem split_space_layout {α : Type} (p : α → Bool) (w sp xs : List α) (hw : w ≠ []) (hwp : ∀ x ∈ w, p x = false)
+    (hsp : ∀ x ∈ sp, p x = true) :
+    groupsLoop p (sp ++ xs) [] = groupsLoop p xs [] ∧
+    (sp ≠ [] → groupsLoop p (w ++ sp ++ xs) [] = w :: groupsLoop p xs []) ∧
+    groupsLoop p w [] = [w] ∧ groupsLoop p ([] : List α) [] = [] :=
+  ⟨groupsLoop_skip p sp xs hsp, fun hs => groupsLoop_field p w sp xs hw hwp hs hsp, groupsLoop_last p w hw hwp, rfl⟩
+
+/-- on ASCII the separators of `" "` are exactly TAB LF VT FF CR and space -/
+theorem split_space_ascii_blanks (b : UInt8) : isSpaceRune [b] = ((9 ≤ b && b ≤ 13) || b == 32) := isSpaceRune_ascii b
+
+/-- tolower/toupper on ASCII text (either mode): bytewise, only A–Z / a–z move, by 32; length preserved; idempotent.
+`uni` (Go's Unicode tables) plays no role. -/
+theorem case_ascii (uni : Bytes → Bytes) (s : Bytes) (h : ∀ b ∈ s, b < 128) :
+    mapCase asciiLower uni s = s.map asciiLower ∧ mapCase asciiUpper uni s = s.map asciiUpper ∧
+    (∀ b : UInt8, (65 ≤ b ∧ b ≤ 90 → asciiLower b = b + 32) ∧ (¬(65 ≤ b ∧ b ≤ 90) → asciiLower b = b) ∧
+      asciiLower (asciiLower b) = asciiLower b ∧ asciiUpper (asciiLower b) = asciiUpper b ∧ (b < 128 → asciiLower b < 128)) ∧
+    (∀ b : UInt8, (97 ≤ b ∧ b ≤ 122 → asciiUpper b = b - 32) ∧ (¬(97 ≤ b ∧ b ≤ 122) → asciiUpper b = b) ∧
+      asciiUpper (asciiUpper b) = asciiUpper b ∧ asciiLower (asciiUpper b) = asciiLower b ∧ (b < 128 → asciiUpper b < 128)) :=
+  ⟨mapCase_ascii _ uni s h, mapCase_ascii _ uni s h, asciiLower_spec, asciiUpper_spec⟩
+
+/-- for every string and every Unicode table: the result is rune by rune — ASCII bytes by the table wherever they stand,
+an invalid byte becomes U+FFFD (so bytes ≥ 0x80 are NOT left alone, in byte mode either: the code calls
+strings.ToLower/ToUpper in both modes), a valid multi-byte rune is `uni` of it; the all-ASCII fast path is the same function -/
+theorem case_rune_by_rune (tbl : UInt8 → UInt8) (uni : Bytes → Bytes) (s : Bytes) :
+    mapCase tbl uni s = ((runes s).map (caseRune tbl uni)).flatten ∧
+    (∀ b, b < 128 → caseRune tbl uni [b] = [tbl b]) ∧ (∀ b, ¬ b < 128 → caseRune tbl uni [b] = [0xEF, 0xBF, 0xBD]) :=
+  ⟨mapCase_eq tbl uni s, caseRune_singleton tbl uni, fun b hb => by simp [caseRune, hb]⟩
+
+/-! ### stated, not proved -/
+
+/-- valid UTF-8: every element of the rune decomposition is ASCII or a multi-byte sequence -/
+def ValidUTF8 (t : Bytes) : Prop := ∀ r ∈ runes t, r.length > 1 ∨ ∃ b, r = [b] ∧ b < 128
+
+/-- UTF-8 is self-synchronising: an occurrence of a valid needle lies on rune boundaries of the subject, so the alignment
+hypothesis of `index_substr_partial` holds for every valid needle. NOT proved (observed on every index case of the harness
+with a valid needle). -/
+def ValidNeedleAligned : Prop :=
+  ∀ (s t : Bytes) (i : Nat), ValidUTF8 t → indexOf s t = some i → Aligned s i (i + t.length)
+
+/-- the match list `regexp` hands to the callbacks has the shape `MatchesWF` and is rune-aligned. NOT proved (the engine is
+not modelled); checked against the real engine on every match/sub case by the driver's `laws` request. -/
+def EngineMatchesWellFormed (findAll : Bytes → List (Nat × Nat)) : Prop :=
+  ∀ s, MatchesWF s 0 (findAll s) ∧ ∀ p ∈ findAll s, Aligned s p.1 p.2
+
 /-! ## the regex cache is transparent -/
 
 /-- For every engine (`compile`, `longest`), every cache limit and every history of compilations starting from the empty cache
@@ -299,6 +390,12 @@ example : awkSplitLit [97, 44, 98, 44] [44] = [[97], [98], []] := by decide
 example : indexOf [97, 98, 99, 98, 99] [98, 99] = some 1 := by decide
 example : (compileAll (R := Bytes × Bool) (fun b => some (b, false)) (fun r => (r.1, true)) 1 [] [[97], [98], [97], [98]]).1
     = [some ([40, 63, 115, 58, 97, 41], true), some ([40, 63, 115, 58, 98, 41], true), some ([40, 63, 115, 58, 97, 41], true), some ([40, 63, 115, 58, 98, 41], true)] := by decide
+example : tokenize [60, 92, 38, 38, 92, 113, 92, 92, 92] = [.text 60, .escAmp, .amp, .bsOther 113, .escBs, .bsEnd] := by decide
+example : expand [120] [60, 92, 38, 38, 92, 113, 92, 92, 92] = [60, 38, 120, 92, 113, 92, 92] := by decide
+example : awkSplitRegex [97, 49, 98, 50, 50] [(1, 2), (3, 5)] = [[97], [98], []] ∧ cutTexts [97, 49, 98, 50, 50] [(1, 2), (3, 5)] = [[49], [50, 50]] := by decide
+example : awkSplitRegex [97, 98] [(0, 0), (1, 1), (2, 2)] = [[97], [98]] ∧ lastStart 0 [(0, 0), (1, 1), (2, 2)] = 2 := by decide
+example : stringsFields [32, 97, 0xC2, 0xA0, 9, 98, 0xff, 32] = [[97], [98, 0xff]] := by decide
+example : mapCase asciiUpper id [97, 0xff, 0xe6, 0x97, 0xa5, 122] = [65, 0xEF, 0xBF, 0xBD, 0xe6, 0x97, 0xa5, 90] := by decide
 example : (RTok.text 120).ok := ⟨by decide, by decide⟩
 example : expand [120] ([RTok.amp, .escAmp, .text 45, .escBs].flatMap RTok.render) = [120, 38, 45, 92] := by decide
 
